@@ -2,7 +2,7 @@
    Only statements; every proof is `exact <lemma>`; examples by computation. *)
 From Coq Require Import List ZArith QArith Qcanon Bool Arith.
 From Dimod Require Import Base.Util Model.Poly Model.HPoly Model.Reduce
-  Proofs.ReduceFacts Proofs.PenaltyFacts Proofs.MakeQuadratic Proofs.NormaliseFacts Proofs.C15EndToEnd.
+  Proofs.ReduceFacts Proofs.PenaltyFacts Proofs.MakeQuadratic Proofs.NormaliseFacts Proofs.C15EndToEnd Proofs.ReduceLoop.
 Import ListNotations.
 Open Scope Qc_scope.
 
@@ -179,6 +179,39 @@ Theorem C15_make_quadratic_spin_raw :
     energy (mq_spin s cons (reduce_with (map drop_aux cons) poly)) a' = henergy raw a.
 Proof. exact make_quadratic_spin_raw. Qed.
 Print Assumptions C15_make_quadratic_spin_raw.
+
+(* The greedy loop of reduce_binary_polynomial with an ARBITRARY admissible choice of the pair
+   (any pair of distinct variables occurring together in a term of degree > 2; None only when no
+   such term is left - the frequency index and queue are one such choice): with fuel
+   sum of max(0, degree - 2) it ends with all degrees <= 2, its constraint sequence is valid
+   (fresh, distinct product variables) and its result is reduce_with of that sequence, so
+   C15_reduce_energy_on_consistent applies to it. *)
+Theorem C15_reduce_degree_le_2 :
+  forall (ch : choice) (p : hpoly),
+    good_choice ch -> terms_nodup p = true ->
+    let '(r, cs) := reduce_loop (excess p) ch (fresh_above p) p in
+    all_degree_le2 r = true /\ valid_cons (hvars p) cs = true /\ r = reduce_with cs p /\
+    (length cs <= excess p)%nat.
+Proof. exact reduce_degree_le_2. Qed.
+Print Assumptions C15_reduce_degree_le_2.
+
+(* every admissible substitution strictly lowers the total excess degree *)
+Theorem C15_excess_decreases :
+  forall u v x p,
+    terms_NoDup p -> u <> v -> (exists t, In t p /\ applies u v (fst t) = true) ->
+    (excess (subst_step (u, v, x) p) < excess p)%nat.
+Proof. exact excess_subst_lt. Qed.
+Print Assumptions C15_excess_decreases.
+
+(* admissible choices exist *)
+Theorem C15_first_pair_good : good_choice first_pair.
+Proof. exact first_pair_good. Qed.
+Print Assumptions C15_first_pair_good.
+
+Example C15_ex_loop :
+  let poly : hpoly := [([0;1;2;3]%nat, 1); ([0;1;2]%nat, - two); ([3%nat], 1)] in
+  snd (reduce_loop (excess poly) first_pair (fresh_above poly) poly) = [(0, 1, 4)%nat; (4, 2, 5)%nat].
+Proof. vm_compute. reflexivity. Qed.
 
 (* the hypotheses are satisfiable on a non-trivial instance: x0 x1 x2 x3 - 2 x0 x1 x2 + x3 *)
 Example C15_ex_reduce :
